@@ -32,7 +32,7 @@ import numpy as np
 
 from harness import calcrdm as C
 from harness.core import MachineryError
-from harness.props.c01 import replay, binding_selftest, record_and_validate
+from harness.props.c01 import replay, binding_selftest, record_and_validate, require_transformations
 
 PID = 'C02'
 BOTH = ('crossnobis', 'poisson_cv')
@@ -112,17 +112,23 @@ def run(ctx):
                        'per-fold precisions are diagonal in the exact tier, general SPD in the float tier',
                        'per-fold precision list is ordered like the sorted fold labels (np.unique)']
     thorough = ctx.tier == 'thorough'
-    W = 16
+    W = 16 if thorough else 2      # quick: wall time is JVM start + the sequential Init, more workers only burn CPU
+    q = not thorough
     runs = [
-        ('cv_grid', dict(mode='cv', nobs=4, nch=2, nlab=2, nfold=2, vals='Vals01', methods=BOTH, rms=(False, True),
-                         priorids=(1, 2), foldsrcs=('explicit', 'default'), emitmod=1 if thorough else 3), 0),
-        ('cv_cat6', dict(mode='cv', nobs=6, nch=2, nlab=3, nfold=3, datasrc='cat', dataids=(1, 2) if thorough else (2,),
+        # all 36 balanced designs (= all row orders) of 4 observations + default folds; thorough: every data matrix
+        # over {0,1}, quick: 4 catalogue matrices
+        ('cv_grid', dict(mode='cv', nobs=4, nch=2, nlab=2, nfold=2, methods=BOTH, rms=(False, True), priorids=(1, 2),
+                         foldsrcs=('explicit', 'default'),
+                         **(dict(vals='Vals01') if thorough else dict(datasrc='cat', dataids=(1, 2, 3, 4)))), 0),
+        ('cv_cat6', dict(mode='cv', nobs=6, nch=2, nlab=3 if thorough else 2, nfold=3, datasrc='cat',
+                         dataids=(2,),
                          # precision 2 has unequal row sums: (1,..,1) is not an eigenvector, so centring only one
                          # side of the bilinear form is visible
                          methods=BOTH, rms=(False, True), precids=(0, 2), fprecids=(0, 1), priorids=(1,),
-                         foldsrcs=('explicit', 'default'), emitmod=2 if thorough else 4, invs=NOCOEF if thorough else LIGHT), 30),
-        ('cv_perm', dict(mode='cv', nobs=4, nch=2, nlab=2, nfold=3, datasrc='cat', dataids=(3,),
-                         methods=BOTH, rms=(False, True), precids=(0, 2) if thorough else (0,), fprecids=(0, 2),
+                         foldsrcs=('explicit', 'default'), emitmod=2, invs=NOCOEF if thorough else LIGHT), 30),
+        ('cv_perm', dict(mode='cv', nobs=4, nch=2, nlab=2, nfold=3 if thorough else 2, datasrc='cat', dataids=(3,),
+                         methods=BOTH if thorough else ('crossnobis',), rms=(False, True) if thorough else (True,),
+                         precids=(0, 2) if thorough else (0,), fprecids=(0, 2),
                          priorids=(1, 3), foldsrcs=('explicit', 'default') if thorough else ('explicit',),
                          permlevel=1, agree=True, emitmod=2), 0),
     ]
@@ -137,20 +143,15 @@ def run(ctx):
             # default folds with 4 repetitions of 2 conditions (all 70 row orders)
             ('cv_def8', dict(mode='cv', nobs=8, nch=2, nlab=2, nfold=4, datasrc='cat', dataids=(1, 2, 3, 4), methods=BOTH,
                              rms=(False, True), precids=(0, 3), priorids=(2,), foldsrcs=('default',), invs=NOCOEF), 10),
-            ('cv_cat6_3ch', dict(mode='cv', nobs=6, nch=3, nlab=3, nfold=3, datasrc='cat', dataids=(3, 4), methods=BOTH,
+            ('cv_cat6_3ch', dict(mode='cv', nobs=6, nch=3, nlab=2, nfold=3, datasrc='cat', dataids=(3, 4), methods=BOTH,
                                  rms=(False, True), precids=(0, 2), fprecids=(0, 2), priorids=(3,),
                                  foldsrcs=('explicit',), emitmod=8, invs=NOCOEF), 30),
         ]
     ctx.exhaustive = False
     total = 0
     first = True
-    # vacuity guard: every action of the cv pipeline and every transformation is taken (TLC -coverage on a
-    # tiny configuration: coverage output of long runs is too large to parse)
-    r = ctx.tlc('MC_CalcRdm', C.cfg(mode='cv', nobs=2, nch=2, nlab=1, nfold=2, datasrc='cat', dataids=(3,),
-                                    methods=('crossnobis',), fprecids=(0, 2), foldsrcs=('explicit', 'default'),
-                                    permlevel=1, emit=False), name='cv_cov', workers=1, coverage=True, timeout=900)
-    ctx.require_coverage(r, ['DefaultFolds', 'ExplicitFolds', 'SortByCond', 'FoldMeans', 'PairProducts',
-                             'AverageFoldPairs', 'BuildCv', 'PermuteRows', 'RelabelFolds', 'PermuteChannels'])
+    # vacuity guards: see harness/props/c01.py (no TLC -coverage; class guard in replay(), transition count for
+    # the runs with the transformation actions)
     for name, kw, nfloat in runs:
         r = ctx.tlc('MC_CalcRdm', C.cfg(**kw), name=name, workers=W, timeout=1700)
         if not r.n_emitted:
@@ -160,12 +161,14 @@ def run(ctx):
             first = False
         v = next(r.iter_emitted())
         ctx.sample({'run': name, 'in': v['in'], 'expected': v['out']}, cap=8)
+        if kw.get('permlevel'):
+            require_transformations(r, name)
         total += replay(ctx, r, PID, nfloat=nfloat if thorough else nfloat * 3, want=kw)
     ctx.extra['vectors_replayed'] = total
     # clause d: coefficient extraction on every enumerated design (data irrelevant: one zero matrix)
-    coef_runs = [('cv_coef6', dict(mode='cv', nobs=6, nch=1, nlab=3, nfold=3, datasrc='cat', dataids=(5,),
+    coef_runs = [('cv_coef6', dict(mode='cv', nobs=6, nch=1, nlab=3 if thorough else 2, nfold=3, datasrc='cat', dataids=(5,),
                                    methods=('crossnobis',), foldsrcs=('explicit', 'default'), emitcoef=True),
-                  1 if thorough else 4),
+                  1 if thorough else 2),
                  ('cv_coef4', dict(mode='cv', nobs=4, nch=1, nlab=2, nfold=3, datasrc='cat', dataids=(5,),
                                    methods=('crossnobis',), foldsrcs=('explicit', 'default'), emitcoef=True), 1)]
     if thorough:
